@@ -185,14 +185,6 @@ def rule_x1(src, rep, it, tm, counts):
     rep.ob("X1-tokenizer-does-not-raise", pe.where(raises[0]) if raises else pe.where(), pe.scope,
            unparse(raises[0])[:80] if raises else "no raise statement", not raises,
            "peel_off_esc_code is called outside parse()'s try block; an exception here escapes fmtstr()")
-    for c in [n2 for n2 in pe.own_nodes() if isinstance(n2, ast.Call) and isinstance(n2.func, ast.Name) and n2.func.id in ("int", "float")]:
-        comp = pe.module.enclosing(c, (ast.ListComp, ast.GeneratorExp))
-        ok = comp is not None and "numbers" in unparse(comp.generators[0].iter) and ".split(';')" in unparse(comp.generators[0].iter).replace('"', "'")
-        from ..cfg import lexical_guard
-        g2 = lexical_guard(pe.module, c, pe.node)
-        ok = ok and any(pol and "all(" in t and "numbers" in t for t, pol in g2)
-        rep.ob("X1-int-only-on-digit-group", pe.where(c), pe.scope, unparse(comp if comp is not None else c)[:90], ok,
-               "int() must only be applied to the ';'-separated pieces of the digit group, under the all(...) non-empty guard")
     # the numbers group only admits digits and ';'
     num = csi["rx"].group("numbers")
     ref = RX.Regex(r"[0-9;]*", 0)
